@@ -18,9 +18,9 @@ CONSTANTS
   MaxHist = 0
   TagsA = {"none", "v1", "v2", "junk", "rep", "bad"}
   TagsB = {"none", "v1", "rep", "bad", "dup", "lim"}
-  TagsC = {"none", "v1", "junk"}
-  TagsQ = {"none", "q1", "q2", "qbad"}
-  TagsG = {"none", "g1", "gbad"}
+  TagsC = {"none"}
+  TagsQ = {"none", "q1", "qbad"}
+  TagsG = {"none", "gbad"}
   PayA = {}
   PayB = {}
   PayQ = {}
